@@ -1,4 +1,4 @@
-\* quick: one client, pool of 2, heartbeat on, echo replies, external broadcast; repaired pool (Dev = {}): every invariant and the liveness ShutdownEndsRun
+\* quick: one client, pool of 2, echo replies, external broadcast; repaired pool (Dev = {}): every invariant and the liveness ShutdownEndsRun
 CONSTANTS
   c1 = c1
   c2 = c2
@@ -10,7 +10,7 @@ CONSTANTS
   MaxMsgs = 1
   MaxPings = 0
   Workers <- WS2
-  Heartbeat = TRUE
+  Heartbeat = FALSE
   Reply <- ReplyUni
   ExtScript <- ExtBc
   Mode = "free"
